@@ -20,9 +20,13 @@ from .c17 import TABLE
 UNITS = ["mm/d", "m/s", "kg m-2 s-1", "W/m2", "m", "mm", "", "m3/s", "kW"]
 
 
-def make(kind, step, per_time):
+def make(kind, step, per_time, initial_interval=None):
     if kind == "avg":
         return AvgOverTime(step=step)
+    if initial_interval:
+        from datetime import timedelta
+
+        return SumOverTime(step=step, per_time=per_time, initial_interval=timedelta(seconds=initial_interval))
     return SumOverTime(step=step, per_time=per_time)
 
 
@@ -70,7 +74,7 @@ class C12(Property):
             pulls = [total // 3, 2 * total // 3, total]
         coarse = [x for k, x in enumerate(pulls) if k % 3 == 2 or k == len(pulls) - 1]
         return dict(kind=kind, step=step, per_time=per_time, units=rnd.choice(UNITS), pubs=pubs, pulls=pulls, coarse=coarse,
-                    payload=rnd.choice(["scalar", "scalar", "grid"]), memory=rnd.choice([None, None, None, 0, 50]), rejects=rnd.random() < 0.4, initial_pull=rnd.random() < 0.65)
+                    payload=rnd.choice(["scalar", "scalar", "grid"]), memory=rnd.choice([None, None, None, 0, 50]), rejects=rnd.random() < 0.4, initial_pull=rnd.random() < 0.65, ahead=rnd.choice([0, 0, 1, 2, 4]), initial_interval=rnd.choice([None, None, 3600, 86400, 129600]))
 
     def run(self, spec):
         import os
@@ -84,7 +88,7 @@ class C12(Property):
             grid = fm.UniformGrid((3, 3), data_location="POINTS")
             w = 1.0 + 0.25 * np.arange(9, dtype=float).reshape(3, 3)
         info = fm.Info(time=slots.T0, grid=grid, units=u)
-        a1, a2 = make(kind, step, per_time), make(kind, step, per_time)
+        a1, a2 = make(kind, step, per_time, spec.get("initial_interval")), make(kind, step, per_time, spec.get("initial_interval"))
         o = fm.Output(name="out", info=info)
         i1 = fm.Input(name="fine", info=fm.Info(time=slots.T0, grid=grid, units=None))
         i2 = fm.Input(name="coarse", info=fm.Info(time=slots.T0, grid=grid, units=None))
@@ -106,6 +110,8 @@ class C12(Property):
 
     def _drive(self, out, spec, o, i1, i2, w):
         kind, step, per_time, u = spec["kind"], spec["step"], spec["per_time"], spec["units"]
+        if spec.get("ahead"):
+            out.count("sources_running_ahead")
         hist = History()
         pubs = list(spec["pubs"])
         pulls = [(t, "fine") for t in spec["pulls"]] + [(t, "coarse") for t in spec["coarse"]]
@@ -115,7 +121,8 @@ class C12(Property):
         def publish_until(t):
             nonlocal pi
             # publish everything up to (and one beyond) t so the request is inside the published range
-            while pi < len(pubs) and (pubs[pi][0] <= t or (len(hist) and hist.newest < t) or not len(hist)):
+            ahead = spec.get("ahead", 0)  # the source may have run several publications ahead of the consumer
+            while pi < len(pubs) and (pubs[max(0, pi - ahead)][0] <= t or (len(hist) and hist.newest < t) or not len(hist)):
                 o.push_data(pubs[pi][1] * w, slots.t(pubs[pi][0]))
                 hist.push(pubs[pi][0], F(pubs[pi][1]))
                 pi += 1
@@ -123,8 +130,17 @@ class C12(Property):
         publish_until(0)
         if spec.get("initial_pull", True):
             # initial pulls at the first publication (not judged, documented initial value)
-            i1.pull_data(slots.t(0))
+            g0 = i1.pull_data(slots.t(0))
             i2.pull_data(slots.t(0))
+            if kind == "sum" and per_time and spec.get("initial_interval"):
+                # documented initial value of a per-time sum: the first publication times the configured initial interval
+                (dims0, f0, _x) = TABLE[u]
+                want0 = float(hist.v[0]) * spec["initial_interval"] * f0 * w
+                got0 = np.asarray(np.ma.getdata(g0.to_base_units().magnitude), dtype=float)[0]
+                out.count("initial_interval_values_checked")
+                if not np.allclose(got0, want0, rtol=1e-9, atol=1e-12 * max(1.0, float(np.max(np.abs(want0))))):
+                    out.viol("initial_value", f"per-time sum with initial interval {spec['initial_interval']}s: first delivery {got0.ravel()[:2].tolist()} (SI) expected {np.asarray(want0).ravel()[:2].tolist()}", spec=spec)
+                    return
         else:
             # consumers that do not pull while connecting: the first pull integrates from the first publication
             out.count("consumers_without_initial_pull")
@@ -239,7 +255,7 @@ class C12(Property):
 
     def coverage_gaps(self, counters, tier):
         need = ["pulls_judged", "out_of_range_refused", "per_time_unit_checks", "average_range_checks", "partition_conservation_checks", "kind_avg", "kind_sum", "kind_sum_pt",
-                "mode_linear", "mode_step", "consumers_without_initial_pull"]
+                "mode_linear", "mode_step", "consumers_without_initial_pull", "sources_running_ahead", "initial_interval_values_checked"]
         return [f"{k} never observed" for k in need if not counters.get(k)]
 
 
